@@ -2202,6 +2202,7 @@ class _Project:
             for source_path, diagnostic_list in diagnostics.items():
                 self.on_diagnostics(source_path, diagnostic_list)
 
+        self._forget_dependencies(page.fileid for page, _ in pages)
         for page, page_diagnostics in pages:
             self._page_updated(page, page_diagnostics)
             fileid = page.fake_full_fileid()
@@ -2296,6 +2297,7 @@ class _Project:
                         "",
                         ast_root,
                     )
+                    self._forget_dependencies([new_page.fileid])
                     self._page_updated(new_page, diagnostics)
                 except Exception as e:
                     logger.error(e)
@@ -2309,6 +2311,7 @@ class _Project:
             yaml_pages = list(
                 self.yaml_domain.load_and_generate(all_yaml_diagnostics, self.cache)
             )
+            self._forget_dependencies(page.fileid for page, _ in yaml_pages)
             for page, page_diagnostics in yaml_pages:
                 self._page_updated(page, page_diagnostics)
 
@@ -2390,6 +2393,7 @@ class _Project:
                 for path in paths:
                     try:
                         page, diagnostics = self.cache.get(self.config, path)
+                        self._forget_dependencies([page.fileid])
                         self._page_updated(page, diagnostics)
                         hits += 1
                     except parse_cache.CacheMiss:
@@ -2399,6 +2403,7 @@ class _Project:
 
             results = pool.imap_unordered(partial(parse_rst, self.parser), cache_misses)
             for sequence in results:
+                self._forget_dependencies(page.fileid for page, _ in sequence)
                 for page, diagnostics in sequence:
                     self._page_updated(page, diagnostics)
 
@@ -2432,10 +2437,9 @@ class _Project:
 
         logger.debug("Updated: %s", page.fileid)
 
-        # Update dependents: forget what this page used to depend on, but not which pages
-        # depend on it (removing the node would also drop its incoming edges)
-        if page.fileid in self.asset_dg:
-            self.asset_dg.remove_edges_from(list(self.asset_dg.out_edges(page.fileid)))
+        # Update dependents. What the source file used to depend on has been forgotten by
+        # our caller (see _forget_dependencies): here we only add, because several pages
+        # can be generated from one source file and all of them are keyed by its fileid.
         self.asset_dg.add_edges_from(
             (
                 page.fileid,
@@ -2457,6 +2461,15 @@ class _Project:
         )
         with self._backend_lock:
             self.on_diagnostics(page.fileid, diagnostics_copy)
+
+    def _forget_dependencies(self, sources: Iterable[FileId]) -> None:
+        """Forget what the given source files used to depend on, but not which pages depend
+        on them (removing the nodes would also drop their incoming edges). To be called once
+        per re-parsed source file, before _page_updated() is called for the pages generated
+        from it: a YAML file can generate several pages."""
+        for source in set(sources):
+            if source in self.asset_dg:
+                self.asset_dg.remove_edges_from(list(self.asset_dg.out_edges(source)))
 
     def update_dependents(self, fileid: FileId) -> None:
         """Re-parse the pages which recorded a dependency on a source file that has just been
